@@ -28,7 +28,7 @@ var textPool = []string{"A", " b ", "\n", "\n  ", "<p>", "</p> <b>", "ü€", "x
 
 var allConstructs = []string{"text", "var", "y", "vsim", "if", "ifequal", "ifnotequal", "for", "with", "set", "macro", "import",
 	"include", "lazyinclude", "cycle", "ifchanged", "filtertag", "spaceless", "autoescape", "firstof", "widthratio",
-	"templatetag", "lorem", "now", "comment", "verbatim", "ssi", "ssiplain", "failexpr", "poly", "lazyvar", "big", "recmacro", "listlit", "ctxfunc"}
+	"templatetag", "lorem", "now", "comment", "verbatim", "ssi", "ssiplain", "failexpr", "poly", "lazyvar", "big", "recmacro", "listlit", "ctxfunc", "hiddenrandom", "lookup"}
 
 // filters with the argument forms the generator writes for them
 var filterForms = map[string][]string{
@@ -217,6 +217,16 @@ func (p *progGen) node(b *strings.Builder, depth int) {
 		} else {
 			fmt.Fprintf(b, "{{ %s|vsim }}", p.strE())
 		}
+	case "hiddenrandom":
+		// constructs documented to depend on randomness or the clock are executed, but in
+		// a position where only the (constant) truthiness of their output matters
+		p.use("macro")
+		m := p.id("hr")
+		inner := p.pick([]string{"{% lorem 3 w random %}", "{% lorem 2 p random %}", `{% now "2006-01-02 15:04:05" %}`, "{{ s2|random }}x", "{{ strs|random }}x"})
+		fmt.Fprintf(b, "{%% macro %s() %%}.%s{%% endmacro %%}{%% if %s() %%}{%% endif %%}", m, inner, m)
+	case "lookup":
+		// bare variable lookups, some of which fail for some context shapes
+		fmt.Fprintf(b, "{{ %s }}", p.pick([]string{"st.Name", "mp.k1", "lst.0", "strs.1", "n1.Foo", "mp.0", "s1.x", "fn_maybe", "poly.Name", "st.Next.Age", "nl.a.b", "lst.9", "f1.z"}))
 	case "ctxfunc":
 		// context functions that take the implicit *ExecutionContext, with various arities
 		switch p.g.Draw(5) {
@@ -524,6 +534,16 @@ func GenProgram(g *Tape, size int) *ProgSpec {
 			p.off[c] = true
 			sp.Off = append(sp.Off, c)
 		}
+	}
+	if g.Draw(10) == 9 {
+		// a "plain" program: nothing but text and bare variable lookups
+		for _, c := range allConstructs {
+			if c != "text" && c != "lookup" {
+				p.off[c] = true
+			}
+		}
+		p.off["lookup"] = false
+		sp.Off = []string{"everything but text and bare lookups"}
 	}
 	sp.TrimBlocks = g.Draw(3) == 1
 	sp.LStripBlocks = g.Draw(4) == 1
